@@ -495,6 +495,19 @@ Definition c07_pack_rrecv (B : Type) (zeroB : B) (wire : list B) (p0 : c07_pack 
   end.
 
 
+(* ------------------------------------------------------------------ (H') audit 2: asymmetric arguments, targets with earlier state *)
+(* gatherv(in, sendDataLen, out, recvDataLen, displ, root) / scatterv(send, sendDataLen, displ, recv, recvDataLen, root): EVERY rank passes its
+   own count / displacement arrays (args = one pair per rank); the wrappers hand them to MPI_Gatherv / MPI_Scatterv unchanged and MPI reads
+   the ROOT's arrays only (the per-rank send / receive count is the separate scalar argument) *)
+Definition c07_mpi_gatherv_ranks (E : Type) (merge : E -> E -> E) (root : nat) (ins : list (list E)) (args : list (list nat * list nat))
+    (outs : list (list E)) : option (list (list E)) :=
+  match nth_error args root with None => None | Some a => c07_mpi_gatherv E merge root ins (fst a) (snd a) outs end.
+Definition c07_mpi_scatterv_ranks (E : Type) (merge : E -> E -> E) (root : nat) (ins : list (list E)) (args : list (list nat * list nat))
+    (outs : list (list E)) : option (list (list E)) :=
+  match nth_error args root with None => None | Some a => c07_mpi_scatterv E merge root ins (fst a) (snd a) outs end.
+(* MPIPack& operator=(MPIPack&&) = default: member-wise, buffer and cursor of the source; nothing of the target is kept *)
+Definition c07_pk_move_assign (B : Type) (dst src : c07_pack B) : c07_pack B := C07_PK B (c07_pk_buf B src) (c07_pk_pos B src).
+
 (* ------------------------------------------------------------------ (I) MPIData: how an object is described to MPI as (count, datatype) *)
 Record c07_mpidata := C07_MD { c07_md_count : nat; c07_md_tm : c07_tmap }.
 (* default MPIData<T>: ptr = &t, size() = 1, type() = MPITraits<T>::getType() *)
